@@ -23,7 +23,9 @@ POOL = ["garbage line", "vim: set ft=changelog:", ";; Local variables:", "Local 
         "foo (1) unstable", "foo (2) unstable; urgency=low", "  * change", "", " ", "x", "Mon Jan 1 2001 A <a@b>", "1.0:",
         "  foo (3) unstable; urgency=low", "\tbar (1.0-1) stable; urgency=high", "  -- A B <a@b>  Thu, 12 Dec 2006 12:23:34 +0000",
         "foo (2) unstable; urgency=low  ", " \t ", "oldpkg (0.1);", "oldpkg (0.1); urgency=low", "oldpkg (0.1) ; urgency=low",
-        "pkg (1.0)unstable; urgency=low", "pkg(1.0) unstable; urgency=low"]
+        "pkg (1.0)unstable; urgency=low", "pkg(1.0) unstable; urgency=low",
+        # characters str.splitlines treats as line ends (a text given as str is cut there; so is the same text given as bytes)
+        "  * form\x0cfeed inside a change line", "\x0c", "  * next\x85line and\u2028separator"]
 
 
 def _version_of(b):
@@ -234,6 +236,19 @@ def run(ctx):
                          strict=strict_raised, lenient_warnings=[str(x.message) for x in w])
                 break
             if not normal_form_ok(real, cl, aea, t, text=mtext, allow_empty_author=aea, mutations=muts):
+                break
+            # the same text handed in as UTF-8 bytes is the same changelog
+            try:
+                with warnings.catch_warnings():
+                    warnings.simplefilter("ignore")
+                    clb = real.Changelog(mtext.encode("utf-8"), allow_empty_author=aea)
+                same = blocks_of(clb) == blocks_of(cl)
+            except Exception as e:
+                t.failed("the lenient constructor raised %r on the text given as bytes" % (e,), text=mtext, allow_empty_author=aea)
+                break
+            if not same:
+                t.failed("the text given as bytes parses to other blocks than the text given as str", text=mtext, allow_empty_author=aea,
+                         from_bytes=repr(blocks_of(clb)), from_str=repr(blocks_of(cl)))
                 break
         if t.fail:
             break
